@@ -98,6 +98,14 @@ theorem simple_varAssignment (n v : String) (g : Bool) : Simple (varAssignment n
   unfold varAssignment
   exact simple_bind _ _ simple_get (fun _ => simple_addLine _ rfl)
 
+theorem simple_varAssignSliceLen (n v : String) (g : Bool) : Simple (varAssignSliceLen n v g) := by
+  unfold varAssignSliceLen
+  exact simple_bind _ _ simple_get (fun _ => simple_addLine _ rfl)
+
+theorem simple_varAssignStrLen (n : String) (g : Bool) : Simple (varAssignStrLen n g) := by
+  unfold varAssignStrLen
+  exact simple_bind _ _ simple_get (fun _ => simple_addLine _ rfl)
+
 theorem simple_varEvaluation (n : String) (g : Bool) : Simple (varEvaluation n g) := by
   unfold varEvaluation
   exact simple_bind _ _ simple_get (fun _ => simple_pure _)
@@ -181,7 +189,7 @@ theorem simple_sliceEvaluation (n i : String) : Simple (sliceEvaluation n i) := 
 
 theorem simple_sliceLen (n : String) : Simple (sliceLen n) := by
   unfold sliceLen
-  exact simple_bind _ _ simple_nextHelperVar (fun _ => simple_assign_eval _ _)
+  exact simple_bind _ _ simple_nextHelperVar (fun _ => simple_bind _ _ (simple_varAssignSliceLen _ _ _) (fun _ => simple_varEvaluation _ _))
 
 theorem simple_stringSubscript (v a b : String) : Simple (stringSubscript v a b) := by
   unfold stringSubscript
@@ -193,7 +201,7 @@ theorem simple_stringSubscript (v a b : String) : Simple (stringSubscript v a b)
 theorem simple_stringLen (v : String) : Simple (stringLen v) := by
   unfold stringLen
   exact simple_bind _ _ simple_nextHelperVar (fun _ => simple_bind _ _ (simple_varAssignment _ _ _) (fun _ =>
-    simple_bind _ _ simple_get (fun _ => simple_assign_eval _ _)))
+    simple_bind _ _ (simple_varAssignStrLen _ _) (fun _ => simple_varEvaluation _ _)))
 
 theorem simple_copyRets : ∀ (n i : Nat), Simple (copyRets n i) := by
   intro n
@@ -229,8 +237,8 @@ theorem simple_inputOp (p : String) : Simple (inputOp p) := by
 theorem simple_copyOp (d s : String) (g : Bool) : Simple (copyOp d s g) := by
   unfold copyOp
   refine simple_bind _ _ simple_get (fun _ => simple_bind _ _ (simple_addLine _ rfl) (fun _ =>
-    simple_bind _ _ ?_ (fun _ => simple_bind _ _ simple_nextHelperVar (fun _ => simple_bind _ _ simple_get (fun _ =>
-      simple_bind _ _ (simple_varAssignment _ _ _) (fun _ => simple_bind _ _ simple_get (fun _ => simple_pure _)))))))
+    simple_bind _ _ ?_ (fun _ => simple_bind _ _ simple_nextHelperVar (fun _ =>
+      simple_bind _ _ (simple_varAssignSliceLen _ _ _) (fun _ => simple_bind _ _ simple_get (fun _ => simple_pure _))))))
   apply simple_modify_flags; intro s; simp
 
 theorem simple_existsOp (p : String) : Simple (existsOp p) := by
